@@ -3,6 +3,7 @@
 // (reached through the all-factories sweep, the process-wide constants and their sub-objects).
 #include "sweep_all.hpp"
 #include "gen/categories.hpp"
+#include "collect.hpp"
 #include <typeinfo>
 #include <type_traits>
 #include <cxxabi.h>
@@ -84,57 +85,6 @@ static void all_views(const Node& n, Ctx& C, const std::string& cls)
 #undef VH_X
 }
 
-static std::string demangle(const char* n)
-{
-   int st = 0; char* d = abi::__cxa_demangle(n, nullptr, nullptr, &st);
-   std::string s = (st == 0 && d) ? d : n; std::free(d);
-   return s;
-}
-
-struct Collector {
-   std::vector<const Node*> nodes;
-   std::set<const Node*> seen;
-   void add(const Node& n) { if (seen.insert(&n).second) nodes.push_back(&n); }
-   template<class F> void attempt(F f) { try { f(); } catch (const std::logic_error&) { } }
-   // sub-objects handed out by a node (one level; the work-list makes it transitive up to a bound)
-   void expand(const Node& n)
-   {
-      struct V : Constant_visitor<No_op> {
-         Collector& c; explicit V(Collector& cc) : c(cc) { }
-         void visit(const Type& t) override { c.attempt([&] { c.add(t.name()); }); c.attempt([&] { c.add(t.type()); }); udt(t); }
-         void visit(const Expr& e) override { c.attempt([&] { c.add(e.type()); }); }
-         void visit(const Stmt& s) override { c.attempt([&] { c.add(s.type()); }); }
-         void visit(const Decl& d) override { c.attempt([&] { c.add(d.type()); }); c.attempt([&] { c.add(d.name()); }); c.attempt([&] { c.add(d.home_region()); }); }
-         void udt(const Type& t)
-         {
-            if (auto u = util::view<Class>(t)) region(u->region());
-            if (auto u = util::view<Union>(t)) region(u->region());
-            if (auto u = util::view<Namespace>(t)) region(u->region());
-            if (auto u = util::view<Enum>(t)) region(u->region());
-            if (auto u = util::view<Closure>(t)) region(u->region());
-         }
-         void region(const Region& r)
-         {
-            c.add(r); c.add(r.bindings());
-            c.attempt([&] { c.add(r.bindings().type()); });
-            for (auto& d : r.bindings().elements()) { c.add(d); c.attempt([&] { auto o = r.bindings()[d.name()]; if (o.is_valid()) c.add(o.get()); }); }
-         }
-         void visit(const Region& r) override { region(r); }
-         void visit(const Block& b) override { region(b.region()); for (auto& h : b.handlers()) { c.add(h); c.add(h.exception()); c.add(h.body()); region(h.body().region()); region(h.body().region().enclosing()); } c.attempt([&] { c.add(b.type()); }); }
-         void visit(const Mapping& m) override { c.add(m.parameters()); region(m.parameters().region()); c.attempt([&] { c.add(m.parameters().type()); }); }
-         void visit(const Lambda& m) override { c.add(m.parameters()); region(m.parameters().region()); }
-         void visit(const Requires& m) override { c.add(m.parameters()); region(m.parameters().region()); }
-         void visit(const Where& w) override { c.attempt([&] { c.add(w.attendant()); }); }
-         void visit(const Expr_list& l) override { c.attempt([&] { c.add(l.type()); }); }
-         void visit(const Phased_evaluation& p) override { c.add(p.expression()); }
-         void visit(const Identifier& i) override { c.add(i.string()); }
-         void visit(const Class& k) override { visit(static_cast<const Type&>(k)); for (auto& b : k.bases()) { c.add(b); c.attempt([&] { region(b.home_region()); }); } }
-      };
-      V v(*this);
-      n.accept(v);
-   }
-};
-
 static void body(Ctx& C)
 {
    C.rule("finite space: every leaf interface category (generated from <ipr/node-category>) x every implementation class instance "
@@ -154,13 +104,7 @@ static void body(Ctx& C)
       Sweep S(lex, unit, rng);
       S.run_all();
       Collector col;
-      for (auto& m : S.made) if (m.node) col.add(*m.node);
-      // process-wide constants and odd implementation classes
-      for (auto p : { &L.true_value(), &L.false_value(), &L.nullptr_value(), &L.default_value(), &L.delete_value() }) col.add(*p);
-      col.add(L.nullptr_value().type()); col.add(L.default_value().type()); col.add(String::empty_string());
-      col.add(lex.get_string(u8"int")); col.add(lex.get_string(u8"a dynamic word")); col.add(lex.get_identifier(u8"int")); col.add(lex.get_identifier(u8""));
-      col.add(*unit.global_region()); col.add(unit.global_namespace());
-      for (std::size_t i = 0; i < col.nodes.size() && col.nodes.size() < 20000; ++i) col.expand(*col.nodes[i]);
+      collect_roots(col, S);
       for (auto np : col.nodes) {
          const Node& n = *np;
          std::string cls = demangle(typeid(n).name());
